@@ -84,6 +84,17 @@ def regenerate(repo, outdir):
     text, status = py2coq.translate_guarded_module(src, ['alpha_beta_electrons'])
     _write(os.path.join(outdir, 'Gen_util_guards.v'), HEADER % 'src/fqe/util.py' + text)
     res['Gen_util_guards'] = {'leaves': status, 'ok': all(v == 'guarded' for v in status.values())}
+    # --- fqe/fci_graph.py: the reference-path loop nest of _get_Z_matrix as a list of table assignments
+    src = open(os.path.join(repo, 'src/fqe/fci_graph.py')).read()
+    try:
+        text = py2coq.translate_table_loops(src, '_get_Z_matrix', 'Z', 'use_accelerated_code')
+        status = {'_get_Z_matrix': 'loops'}
+    except py2coq.Unsupported as e:
+        text = ''
+        status = {'_get_Z_matrix': 'unsupported: %s' % e}
+    _write(os.path.join(outdir, 'Gen_zmatrix_py.v'),
+           (HEADER % 'src/fqe/fci_graph.py').replace('Import GenBase.', 'Import GenBase Addr GenLoops.') + text)
+    res['Gen_zmatrix_py'] = {'leaves': status, 'ok': not text == ''}
     return res
 
 
